@@ -16,6 +16,44 @@ def hole_pairs(chk, texts, per_text, maxlen=160):
     return pairs
 
 
+def regex_ambiguity(chk):
+    """z3 lemmas (no length bound): no unbounded repetition in a pattern the tokenizer compiles is ambiguous in the two ways that make a
+    failing match explore exponentially many decompositions (two alternatives of the body overlap / one iteration equals several).
+    An ambiguous repetition is pumped concretely; only a match call that does not finish is a violation."""
+    from symx import oracles2, relemmas
+    X = repo().real
+    pats = oracles2.compiled_patterns(X)
+    chk.extra["tokenizer_patterns"] = len(pats)
+    nrep = 0
+    for pat in pats:
+        try:
+            entries = relemmas.ambiguity(pat)
+        except Exception as e:  # noqa: BLE001
+            chk.lemma(f"repetitions of {pat[:40]!r} unambiguous", "unknown", repr(e)[:200])
+            continue
+        for e in entries:
+            nrep += 1
+            chk.queries += e["queries"]
+            chk.solver_s += e.get("solver_s", 0.0)
+            if e["status"] == "unambiguous":
+                continue
+            if e["status"] in ("unknown", "unsupported"):
+                chk.lemma(f"repetition {e['node'][:60]} of {pat[:30]!r} unambiguous", "unknown", e.get("detail") or "solver timeout")
+                continue
+            hit = None
+            for suffix in ("\n", "", "\x00\n", "!\n"):
+                v = oracles2.c03_regex(X, pat, e["prefix"], e["witness"], suffix, 40)
+                if v is not None:
+                    hit = (suffix, v)
+                    break
+            if hit:
+                chk.add_candidate({"oracle": "c03_regex", "args": [pat, e["prefix"], e["witness"], hit[0], 40], "kwargs": {}, "v": hit[1]})
+            chk.lemmas.append({"name": f"repetition {e['node'][:60]} of {pat[:30]!r}", "status": "ambiguous-" + ("and-pumpable" if hit else "but-harmless"),
+                               "detail": {"witness": e["witness"], "prefix": e["prefix"]}, "solver_s": e.get("solver_s")})
+    chk.lemma(f"all {nrep} unbounded repetitions of the {len(pats)} tokenizer patterns examined for ambiguity", "valid", None)
+    chk.functions |= {"tokenize.py: every pattern handed to _compile (PseudoToken, end patterns, f-string patterns)"}
+
+
 def holes_textfn(pairs, mode_of=None, insert=False):
     def textfn(ex):
         i = harness.choose_index(ex, "pair", len(pairs))
@@ -66,6 +104,7 @@ def main():
                 f"all token streams over Sigma ({len(levelb.sigma())} kinds) of length {n} + NEWLINE + ENDMARKER, symbolic gaps",
                 vacuity=("ok", "SyntaxError"))
 
+    regex_ambiguity(chk)
     py, xs, lits = seeds.all_seeds()
     xg = seeds.grammar_programs("xonsh", 3 if chk.quick else 8, chk.seed)
     chk.extra["xonsh_grammar_programs"] = len(xg)
@@ -75,7 +114,9 @@ def main():
     if xg:
         chk.run("xonsh.gram derivations k=0", harness.A_harness(tfx, path_oracles=("c03",)), f"{len(xg)} programs derived from every alternative of the working tree's grammar",
                 wall=150 if chk.quick else 900, vacuity=("ok",))
-    cp = seeds.concat_product(False, 200 if chk.quick else 3000, chk.rng) + seeds.literal_product()
+    from symx import errseeds
+    ac = errseeds.after_constructs() + errseeds.spanning_errors()
+    cp = seeds.concat_product(False, 200 if chk.quick else 3000, chk.rng) + seeds.literal_product() + (ac if not chk.quick else seeds.sample(chk.rng, ac, 400))
 
     def tfc(ex):
         return cp[harness.choose_index(ex, "c", len(cp))]
@@ -99,15 +140,28 @@ def main():
             wall=150 if chk.quick else 1500, vacuity=("ok", "SyntaxError"))
     # the recursion clause: nesting families far beyond the interpreter's recursion head-room (concrete, through the oracle)
     from symx import oracles as _o
-    for fam in ("(", "[", "{", "f(", "$(", "lambda: ", "not ", "-", "a if b else "):
-        for d in (30, 100, 300):
-            closer = {"(": ")", "[": "]", "{": "}", "f(": ")", "$(": ")"}.get(fam, "")
-            src = fam * d + "1" + closer * d + "\n"
-            v = _o.c03(repo().real, src, "exec")
-            chk.validated += 1
-            if v is not None:
-                chk.add_candidate({"oracle": "c03", "args": [src, "exec"], "kwargs": {}, "v": v})
-    chk.extra["nesting_families"] = "9 families x depths 30/100/300"
+    # EVERY depth up to 64 (the recursion guard has to hold in both passes of the parser: a narrow band of depths just under the limit
+    # reaches the diagnostic pass), then 100 and 300; valid and invalid cores; run under the head-room of a top-level caller
+    closers = {"(": ")", "[": "]", "{": "}", "f(": ")", "$(": ")", "a[": "]", "@(": ")", "f!(": ")", "{1: ": "}", "[*": "]", "(lambda: ": ")"}
+    fams = ["(", "[", "{", "f(", "$(", "a[", "@(", "{1: ", "[*", "(lambda: ", "lambda: ", "not ", "-", "a if b else ", "await ", "x = "]
+    cores = ["1", "1 2", "x = ", ""]
+    ncases = [(fam, d, core, mode) for fam in fams for d in list(range(1, 65)) + [100, 300] for core in cores
+              for mode in (("exec", "eval") if fam in ("(", "[", "f(", "a[") else ("exec",))]
+    if chk.quick:
+        ncases = [c for c in ncases if c[1] <= 48 or c[1] in (100, 300)]
+
+    def nest_harness(ex):
+        fam, d, core, mode = ncases[harness.choose_index(ex, "n", len(ncases))]
+        src = fam * d + core + closers.get(fam, "") * d + ("\n" if mode == "exec" else "")
+        rec = {"outcome": "?", "validated": 1, "viol": [], "w": [fam, d, core, mode]}
+        v = _o.c03(repo().real, src, mode)
+        rec["outcome"] = "ok" if v is None else "viol"
+        if v is not None:
+            rec["viol"].append({"oracle": "c03", "args": [src, mode], "kwargs": {}, "v": v})
+        return rec
+    chk.run("nesting families x every depth (concrete, through the oracle)", nest_harness, f"{len(ncases)} (family, depth, core, mode) cases: {len(fams)} families, depths 1..{48 if chk.quick else 64}, 100, 300",
+            wall=200 if chk.quick else 900, vacuity=("ok",))
+    chk.extra["nesting_families"] = f"{len(fams)} families x every depth"
     cut_src = FSEEDS + seeds.sample(chk.rng, xs + py, 40 if chk.quick else 400)
     cut_src = [s for s in cut_src if len(s) < 120]
     tf, ncuts = cut_textfn(cut_src)
